@@ -92,20 +92,22 @@ def unit_hash(m):
 def qty_hash(m):
     b = body_of(m)
     ok = (len(b) == 3 and isinstance(b[0], ast.Assign) and len(b[0].targets) == 1
-          and is_name(b[0].targets[0], 'equiv')
+          and isinstance(b[0].targets[0], ast.Name)
           and isinstance(b[0].value, ast.Attribute) and b[0].value.attr == '_equiv'
           and is_self_attr(b[0].value.value, 'unit', '_unit')
-          and isinstance(b[1], ast.If) and not b[1].orelse and len(b[1].body) == 1
-          and is_none_test(b[1].test, lambda e: is_name(e, 'equiv')))
+          and isinstance(b[1], ast.If) and not b[1].orelse and len(b[1].body) == 1)
     if not ok:
         fail(m, "Quantity.__hash__ shape")
+    var = b[0].targets[0].id                    # the local holding the unit's scale
+    if not is_none_test(b[1].test, lambda e: is_name(e, var)):
+        fail(b[1].test, "test of the scale")
     k0, k1 = hashed(b[1].body[0]), hashed(b[2])
     if not (isinstance(k0, ast.Tuple) and len(k0.elts) == 2 and is_self_attr(k0.elts[0], 'amount', '_amount')
             and is_self_attr(k0.elts[1], 'unit', '_unit')):
         fail(k0, "key of a quantity whose unit has no scale")
     if not (isinstance(k1, ast.Tuple) and len(k1.elts) == 2 and isinstance(k1.elts[0], ast.BinOp)
             and isinstance(k1.elts[0].op, ast.Mult) and is_self_attr(k1.elts[0].left, 'amount', '_amount')
-            and is_name(k1.elts[0].right, 'equiv') and is_self_attr(k1.elts[1], '__class__')):
+            and is_name(k1.elts[0].right, var) and is_self_attr(k1.elts[1], '__class__')):
         fail(k1, "key of a quantity whose unit has a scale")
     return ("Definition qty_hash_impl (p : qty) : hkey :=\n"
             "  match u_scale (q_unit p) with\n  | None => HQtyUnit (q_amt p) (u_id (q_unit p))\n"
